@@ -216,7 +216,7 @@ def run(chk):
         for n, window in cases:
             key = "%s n=%d" % (label, n) if window is None else "%s n=%d table bits %s symbolic, others 0" % (label, n, list(window))
             try:
-                it = Interp(facts, max_paths=1024, max_steps=500000000)
+                it = Interp(facts, max_paths=1024, max_steps=20000000)     # needs 0.2M today
                 st = State()
                 if window is None:
                     words, support = sym_words(n, "a"), list(range(1 << n))
